@@ -537,14 +537,9 @@ impl InnerLocustDB {
         let mut new_partition = None;
         let mut maybe_compaction = None;
 
-        if let Some(partition) = table.batch() {
+        if let Some((partition, columns)) = table.batch() {
             #[cfg(feature = "verif")]
             crate::verif::sync_point(&format!("flush:batch:after:{}", table.name()));
-            let columns: Vec<_> = partition
-                .clone_column_handles()
-                .into_iter()
-                .map(|c| c.try_get().as_ref().unwrap().clone())
-                .collect();
             #[cfg(feature = "verif")]
             crate::verif::sync_point(&format!("flush:handles:after:{}", table.name()));
             let (metadata, subpartitions) = subpartition(&self.opts, columns);
